@@ -41,11 +41,14 @@ CHECKS = {
                 "and the governing privileges of each of 52 request classes (type x target kind x request shape) are among the constants its handler "
                 "tests with the protocol's numbers - all over tables REGENERATED from transaction_handlers.go and access.go each run; "
                 "(denied_iff_privilege_missing / never_refused_when_held) for ALL 2^64 bitmaps the decision is 'refused iff some governing bit is "
-                "clear'; the display name is adopted iff bit 26 is held and never causes an error. Correspondence: every class is run on the real "
+                "clear'; the display name is adopted iff bit 26 is held and never causes an error; for ALL path item lists the upload-folder / drop-box rules "
+                "are decided on the directory the items resolve to (dropbox_listing_needs_privilege, upload_elsewhere_needs_privilege, "
+                "upload_folder_never_refused). Correspondence: every class is run on the real "
                 "handlers (fresh targets per request on a real sandbox: files, folders, upload/drop-box folders, accounts, news items, chats, a "
                 "second client) under all-ones-minus-one-bit, single-bit, exactly-the-governing-set and governing-set-minus-one bitmaps "
                 "(all 64 positions in the thorough tier); observed: refused or not, and for a refusal that nothing was queued and no file, "
-                "account, news or ban state changed.",
+                "account, news or ban state changed; plus path probes: special folders addressed through disguises ('.', '..', '' items, "
+                "separators inside an item, declared count off by one) where the effect is observed (secret file name in the listing, destination of a granted upload).",
         "note": "Handler bodies are not modelled in Coq; the branch structure (which guard governs which target kind) is tied by the bit sweep, the "
                 "constants by the translator. Trusted: reference tables, translator. No axioms.",
         "technique": "Coq proof over translator-generated guard tables + exhaustive single-bit / all-but-one-bit correspondence on the real handlers",
